@@ -12,6 +12,9 @@ JOBS = {
     "interp": ("Gen_interp.v", lambda repo: translate_loops.translate_interp(repo)),
     "linop_table": ("Gen_linop_table.v", lambda repo: translate_linop.translate_table(repo)),
     "shapes": ("Gen_shapes.v", lambda repo: __import__("tools.translate_shapes", fromlist=["translate_shapes"]).translate_shapes(repo)),
+    # solver steps of sigpy/alg.py over the operations of model/Alg.v, Alg2.v ("alg") and of model/ProxGrad.v ("alg_pg")
+    "alg": ("Gen_alg.v", lambda repo: __import__("tools.translate_alg", fromlist=["translate_alg"]).translate_alg(repo)),
+    "alg_pg": ("Gen_alg_pg.v", lambda repo: __import__("tools.translate_alg", fromlist=["translate_alg"]).translate_alg_pg(repo)),
 }
 try:
     from tools import translate_more
